@@ -58,6 +58,9 @@ var baseCorpus = []string{
 	// evaluation is linear with the field cache and 2^14 per row without it)
 	"select strlen(key) as a0, a0+a0 as a1, a1+a1 as a2, a2+a2 as a3, a3+a3 as a4, a4+a4 as a5, a5+a5 as a6, a6+a6 as a7, a7+a7 as a8, a8+a8 as a9, a9+a9 as a10, a10+a10 as a11, a11+a11 as a12, a12+a12 as a13, a13+a13 as a14 where a14 > 0 & key ^= 'k'",
 	"select key as a, a, value as a, upper(a) as b, b where a ^= 'k' order by b",
+	"select * where key in ('k1', 'k2', 'k1', 'k3', 'k2') | key = 'k1'",
+	"delete where key in ('k2', 'k2', 'k9', 'k2') & value != ''",
+	"select substr(key, 0, 1) as p, count(1), sum(int(value)) where key ^= 'k' group by p limit 40, 5",
 	// numbers below zero (the language has no negative literal) in every position that takes a number
 	"select substr(value, 0 - 1, 2), substr(value, 1, 0 - 2), list(1, 2)[0 - 1], split(value, ',')[0 - 1], int(value) / (0 - 1) where key ^= 'k' limit 0, 0",
 	"select quantile(int(value), 0 - 0.5), quantile(float(value), 0), quantile(int(value), 1) where key ^= 'k'",
